@@ -1,2 +1,92 @@
-(* C10 *)
-From Grex Require Import Base.Str.
+(* C10 — the output is a deterministic function of the SET of test cases and the settings:
+   order and multiplicity of test cases, the order of (compatible) setter calls, builds in
+   between, and cloning are irrelevant.
+
+   brun isd db sc st ops runs a history of builder operations (OSet s / OBuild) from state st
+   and returns the final state and the outputs of the builds (Model/History.v); `expected` is
+   the specification: the output of each build is the build of the ORIGINAL test cases with
+   the settings accumulated so far.  Hypothesis on the oracle: lower-casing is idempotent. *)
+From Coq Require Import Permutation.
+From Grex Require Import Base.Str Model.Config Model.Builder Model.Cluster Model.Expr
+  Model.Pipeline Model.History.
+From Grex Require Import Proofs.NormaliseDet Proofs.Wrappers Proofs.PropsGlue.
+From GrexGen Require Import SrcBuilder.
+
+Theorem C10_perm : forall isd c db sc ws1 ws2,
+  (forall x, In x ws1 <-> In x ws2) -> build isd c db sc ws1 = build isd c db sc ws2.
+Proof. exact build_perm. Qed.
+
+Theorem C10_dup : forall isd c db sc ws,
+  build isd c db sc (ws ++ ws) = build isd c db sc ws.
+Proof. exact build_dup. Qed.
+
+Theorem C10_permutation : forall isd c db sc ws1 ws2,
+  Permutation ws1 ws2 -> build isd c db sc ws1 = build isd c db sc ws2.
+Proof. exact build_permutation. Qed.
+
+(* any history starting from the default settings *)
+Theorem C10_history : forall (isd : cp -> bool) (db : odb) (sc : cfg -> list str -> selfcheck),
+  (forall s, lower' db (lower' db s) = lower' db s) ->
+  forall ops ws st outs,
+  brun isd db sc (mkB ws src_default_cfg) ops = Some (st, outs) ->
+  outs = expected isd db sc ws src_default_cfg ops
+  /\ cfg_after src_default_cfg ops = Some (b_cfg st)
+  /\ b_tcs st = tcs_after db ws src_default_cfg ops.
+Proof. exact Wrappers.C10_history. Qed.
+
+(* builds in between do not influence later builds *)
+Theorem C10_builds_in_between : forall (isd : cp -> bool) (db : odb) (sc : cfg -> list str -> selfcheck),
+  (forall s, lower' db (lower' db s) = lower' db s) ->
+  forall ws c ops st outs st' outs',
+  brun isd db sc (mkB ws c) (ops ++ [OBuild]) = Some (st, outs) ->
+  brun isd db sc (mkB ws c) (strip_builds ops ++ [OBuild]) = Some (st', outs') ->
+  b_cfg st = b_cfg st' /\ b_tcs st = b_tcs st' /\ (exists pre, outs = pre ++ outs').
+Proof. exact builds_in_between_irrelevant. Qed.
+
+(* a clone behaves like the original; a clone taken after builds like one taken before *)
+Theorem C10_clone : forall (isd : cp -> bool) (db : odb) (sc : cfg -> list str -> selfcheck)
+  (st clone : bstate) (ops : list bop),
+  clone = st -> brun isd db sc clone ops = brun isd db sc st ops.
+Proof. exact clone_same. Qed.
+
+Theorem C10_clone_after_build : forall (isd : cp -> bool) (db : odb) (sc : cfg -> list str -> selfcheck),
+  (forall s, lower' db (lower' db s) = lower' db s) ->
+  forall ws c ops1 ops2 st1 o1 st1' o1' st2 o2 st2' o2',
+  brun isd db sc (mkB ws c) ops1 = Some (st1, o1) ->
+  brun isd db sc (mkB ws c) (strip_builds ops1) = Some (st1', o1') ->
+  brun isd db sc st1 ops2 = Some (st2, o2) ->
+  brun isd db sc st1' ops2 = Some (st2', o2') ->
+  o2 = o2' /\ b_cfg st2 = b_cfg st2'.
+Proof. exact clone_after_build_same. Qed.
+
+(* exactly the compatible pairs of setters commute (two setters are incompatible only if they
+   write the same field with different values, or both panic) *)
+Theorem C10_setters_commute : forall s1 s2,
+  compatible s1 s2 = true <-> (forall c, then2 s1 s2 c = then2 s2 s1 c).
+Proof. exact setters_commute_iff. Qed.
+
+Theorem C10_setters_commute_distinct : forall s1 s2 c c12,
+  same_method s1 s2 = false -> then2 s1 s2 c = inl c12 -> then2 s2 s1 c = inl c12.
+Proof. exact setters_commute_distinct. Qed.
+
+Theorem C10_setter_idempotent : forall s c,
+  bind_cfg (apply_setter s c) (apply_setter s) = apply_setter s c.
+Proof. exact setter_idem. Qed.
+
+(* normalising twice is normalising once *)
+Theorem C10_idempotent_normalise : forall c db ws,
+  (forall s, In s ws -> lower' db (lower' db s) = lower' db s) ->
+  normalise c db (normalise c db ws) = normalise c db ws.
+Proof. exact normalise_idem. Qed.
+
+Print Assumptions C10_perm.
+Print Assumptions C10_dup.
+Print Assumptions C10_permutation.
+Print Assumptions C10_history.
+Print Assumptions C10_builds_in_between.
+Print Assumptions C10_clone.
+Print Assumptions C10_clone_after_build.
+Print Assumptions C10_setters_commute.
+Print Assumptions C10_setters_commute_distinct.
+Print Assumptions C10_setter_idempotent.
+Print Assumptions C10_idempotent_normalise.
